@@ -14,7 +14,12 @@
 #include "translated.h"
 
 #define MAXT 3          /* tests per run (each harness fixes its own number <= MAXT) */
+#ifndef SLEN
 #define SLEN 2          /* symbolic bytes per text field */
+#endif
+#ifndef LINEMASK
+#define LINEMASK 63
+#endif
 
 /* ---------------------------------------------------------------- capture of the output seam
  * Every byte written through PlatformSpecificFPuts is handed, in order, to the stream reader below (the reader is a
@@ -88,8 +93,8 @@ uint32_t env_vsnprintf(uint8_t* s, uint64_t n, uint8_t* f, uint8_t* va) {
 }
 
 /* ---------------------------------------------------------------- texts
- * A text of up to 32 bytes is kept packed in four 64-bit words plus its length (one equality test instead of a loop:
- * the reader below runs once per written byte, so it has to be cheap for the symbolic execution). */
+ * A text of up to 32 bytes is kept packed in four 64-bit words plus its length (one equality test instead of a loop).
+ * Harness state lives in separate small objects on purpose: the symbolic execution pays for every access to a big struct. */
 #define TXT_CAP 32
 struct txt { uint64_t w[4]; uint32_t n; };          /* n == TXT_CAP + 1: longer than the capacity */
 static void txt_add(struct txt* t, uint8_t c) {
@@ -98,15 +103,14 @@ static void txt_add(struct txt* t, uint8_t c) {
 static void txt_clear(struct txt* t) { t->w[0] = t->w[1] = t->w[2] = t->w[3] = 0; t->n = 0; }
 static int txt_eq(const struct txt* a, const struct txt* b) { return a->n == b->n && a->w[0] == b->w[0] && a->w[1] == b->w[1] && a->w[2] == b->w[2] && a->w[3] == b->w[3]; }
 static void txt_cat(struct txt* t, const uint8_t* s, uint32_t cap) { for (uint32_t i = 0; i < cap && s[i]; i++) txt_add(t, s[i]); }
-static unsigned tens_of(uint64_t u);
 static void txt_cat_dec(struct txt* t, uint32_t v) { unsigned d = tens_of(v); if (d) txt_add(t, (uint8_t)('0' + d)); txt_add(t, (uint8_t)('0' + (v - 10 * d))); }   /* v < 100 */
 
 /* ---------------------------------------------------------------- the run as the harness set it up (the originals) */
 #define FCAP (SLEN + 1)
-struct t_test { uint32_t ignored, fails; uint8_t group[FCAP], name[FCAP], file[FCAP], ffile[FCAP], fmsg[FCAP]; uint32_t line, fline;
-                struct txt group_t, name_t, fmsg_t, location_t; };
-static struct t_test T[MAXT];
-static uint32_t NT;                 /* number of tests of this run */
+static uint32_t NT;                                  /* number of tests of this run */
+static uint32_t t_ignored[MAXT], t_fails[MAXT], t_line[MAXT], t_fline[MAXT];
+static uint8_t t_group[MAXT][FCAP], t_name[MAXT][FCAP], t_file[MAXT][FCAP], t_ffile[MAXT][FCAP], t_fmsg[MAXT][FCAP];
+static struct txt t_group_t[MAXT], t_name_t[MAXT], t_fmsg_t[MAXT], t_location_t[MAXT];     /* the texts a reader of the stream must get back */
 
 static uint64_t t_len(const uint8_t* s) { uint64_t n = 0; while (s[n]) n++; return n; }
 static int t_eq(const uint8_t* a, const uint8_t* b) { uint64_t i = 0; while (a[i] && a[i] == b[i]) i++; return a[i] == b[i]; }
@@ -117,23 +121,23 @@ static int t_has_meta(const uint8_t* s) { for (uint64_t i = 0; s[i]; i++) if (t_
 enum { W_NONE, K_SUITE_START, K_SUITE_FINISH, K_TEST_START, K_TEST_FINISH, K_TEST_IGNORED, K_TEST_FAILED, A_NAME, A_MESSAGE, A_DETAILS, A_DURATION };
 #define NWORDS 10
 static const char* const WORDS[NWORDS] = {"testSuiteStarted", "testSuiteFinished", "testStarted", "testFinished", "testIgnored", "testFailed", "name", "message", "details", "duration"};
-/* a token (letters only, at most 20) is kept as two base-64 numbers: exact, no two tokens share a code */
-struct tok { uint64_t a, b; uint32_t n; };
-static void tok_add(struct tok* t, uint8_t c) {
-  uint64_t code = (uint64_t)(c - 'A' + 1);           /* letters 'A'..'z' -> 1..58 */
-  if (t->n < 10) t->a = (t->a << 6) | code; else if (t->n < 20) t->b = (t->b << 6) | code;
-  if (t->n < 21) t->n++;                             /* 21 = too long for any word */
+/* a token (letters only, at most 20) is kept as two base-64 numbers plus its length: exact, no two tokens share a code */
+static uint64_t tok_code(uint64_t acc, uint8_t c) { return (acc << 6) | (uint64_t)(c - 'A' + 1); }      /* letters 'A'..'z' -> 1..58 */
+static uint64_t W_a[NWORDS], W_b[NWORDS]; static uint32_t W_n[NWORDS];
+static void words_init(void) {
+  for (int j = 0; j < NWORDS; j++) {
+    uint64_t a = 0, b = 0; uint32_t n = 0;
+    for (; WORDS[j][n]; n++) { if (n < 10) a = tok_code(a, (uint8_t)WORDS[j][n]); else b = tok_code(b, (uint8_t)WORDS[j][n]); }
+    W_a[j] = a; W_b[j] = b; W_n[j] = n;
+  }
 }
-static struct tok WCODE[NWORDS];
-static void words_init(void) { for (int j = 0; j < NWORDS; j++) { WCODE[j].a = WCODE[j].b = 0; WCODE[j].n = 0; for (int i = 0; WORDS[j][i]; i++) tok_add(&WCODE[j], (uint8_t)WORDS[j][i]); } }
-static uint32_t word_of(const struct tok* t) { uint32_t r = W_NONE; for (uint32_t j = 0; j < NWORDS; j++) r = (t->a == WCODE[j].a && t->b == WCODE[j].b && t->n == WCODE[j].n) ? j + 1 : r; return r; }
 
 /* The reader is a table-driven automaton over character classes (it runs once per written byte under symbolic
  * execution, so it is written with a transition table and a few guarded actions instead of nested branches).
  *
  *   state      on class -> next state / action                                        anything else
  *   BOL        NL -> BOL ; '#' -> PREFIX (first prefix character)                       -> TEXT
- *   PREFIX     next character of "##teamcity[" -> PREFIX, after the last one MSGNAME    NL -> BOL, else TEXT (plain line)
+ *   PREFIX     next character of "##teamcity[" -> PREFIX, after the last one MSGNAME    -> TEXT (plain line)
  *   TEXT       NL -> BOL                                                                -> TEXT
  *   MSGNAME    letter -> MSGNAME (token) ; ' ' -> ATTR (name ends) ; ']' -> CLOSE        malformed
  *   ATTR       letter -> ATTR (token) ; '=' -> QUOTE (attribute name ends)               malformed
@@ -142,7 +146,7 @@ static uint32_t word_of(const struct tok* t) { uint32_t r = W_NONE; for (uint32_
  *   ESC        ' | [ ] -> VALUE (that character) ; n r -> VALUE (LF, CR)                 malformed
  *   AFTER      ' ' -> ATTR ; ']' -> CLOSE                                               malformed
  *   CLOSE      NL -> BOL (message complete)                                             malformed
- * malformed: flag it and treat the rest of the line as plain text. */
+ * malformed: flag it and treat the rest of the line as plain text; after a line feed the reader is always in BOL. */
 enum { S_BOL, S_PREFIX, S_TEXT, S_MSGNAME, S_ATTR, S_QUOTE, S_VALUE, S_ESC, S_AFTER, S_CLOSE, NSTATES };
 enum { C_NL, C_CR, C_SP, C_EQ, C_QUOTE, C_BAR, C_LB, C_RB, C_HASH, C_LETTER, C_OTHER, NCLASSES };
 enum { A_NONE, A_BAD, A_PREFIX_FIRST, A_TOK, A_NAME_END, A_ATTR_END, A_EMIT, A_EMIT_LETTER, A_VAL_END, A_TOK_BEGIN, A_DELIVER, A_PREFIX_NEXT, A_MSG_BEGIN };
@@ -151,21 +155,23 @@ enum { A_NONE, A_BAD, A_PREFIX_FIRST, A_TOK, A_NAME_END, A_ATTR_END, A_EMIT, A_E
 #define TXT GO(S_TEXT, A_NONE)
 #define VAL GO(S_VALUE, A_EMIT)
 static const uint8_t TABLE[NSTATES][NCLASSES] = {
-  /*              NL                     CR    SP                      EQ                      QUOTE                    BAR                 LB   RB                       HASH                       LETTER                       OTHER */
-  /* BOL     */ { GO(S_BOL, A_NONE),     TXT,  TXT,                    TXT,                    TXT,                     TXT,                TXT, TXT,                     GO(S_PREFIX, A_PREFIX_FIRST), TXT,                      TXT },
-  /* PREFIX  */ { GO(S_BOL, A_NONE),     TXT,  TXT,                    TXT,                    TXT,                     TXT,                TXT, TXT,                     TXT,                       TXT,                         TXT },   /* (a matching prefix character is handled before the table) */
-  /* TEXT    */ { GO(S_BOL, A_NONE),     TXT,  TXT,                    TXT,                    TXT,                     TXT,                TXT, TXT,                     TXT,                       TXT,                         TXT },
-  /* MSGNAME */ { BAD,                   BAD,  GO(S_ATTR, A_NAME_END), BAD,                    BAD,                     BAD,                BAD, GO(S_CLOSE, A_NAME_END), BAD,                       GO(S_MSGNAME, A_TOK),        BAD },
-  /* ATTR    */ { BAD,                   BAD,  BAD,                    GO(S_QUOTE, A_ATTR_END), BAD,                    BAD,                BAD, BAD,                     BAD,                       GO(S_ATTR, A_TOK),           BAD },
-  /* QUOTE   */ { BAD,                   BAD,  BAD,                    BAD,                    GO(S_VALUE, A_NONE),     BAD,                BAD, BAD,                     BAD,                       BAD,                         BAD },
-  /* VALUE   */ { BAD,                   BAD,  VAL,                    VAL,                    GO(S_AFTER, A_VAL_END),  GO(S_ESC, A_NONE),  BAD, BAD,                     VAL,                       VAL,                         VAL },
-  /* ESC     */ { BAD,                   BAD,  BAD,                    BAD,                    VAL,                     VAL,                VAL, VAL,                     BAD,                       GO(S_VALUE, A_EMIT_LETTER),  BAD },
-  /* AFTER   */ { BAD,                   BAD,  GO(S_ATTR, A_TOK_BEGIN), BAD,                   BAD,                     BAD,                BAD, GO(S_CLOSE, A_NONE),     BAD,                       BAD,                         BAD },
-  /* CLOSE   */ { GO(S_BOL, A_DELIVER),  BAD,  BAD,                    BAD,                    BAD,                     BAD,                BAD, BAD,                     BAD,                       BAD,                         BAD },
+  /*              NL                     CR    SP                       EQ                       QUOTE                    BAR                 LB   RB                       HASH                          LETTER                       OTHER */
+  /* BOL     */ { GO(S_BOL, A_NONE),     TXT,  TXT,                     TXT,                     TXT,                     TXT,                TXT, TXT,                     GO(S_PREFIX, A_PREFIX_FIRST), TXT,                         TXT },
+  /* PREFIX  */ { GO(S_BOL, A_NONE),     TXT,  TXT,                     TXT,                     TXT,                     TXT,                TXT, TXT,                     TXT,                          TXT,                         TXT },   /* (a matching prefix character is handled before the table) */
+  /* TEXT    */ { GO(S_BOL, A_NONE),     TXT,  TXT,                     TXT,                     TXT,                     TXT,                TXT, TXT,                     TXT,                          TXT,                         TXT },
+  /* MSGNAME */ { BAD,                   BAD,  GO(S_ATTR, A_NAME_END),  BAD,                     BAD,                     BAD,                BAD, GO(S_CLOSE, A_NAME_END), BAD,                          GO(S_MSGNAME, A_TOK),        BAD },
+  /* ATTR    */ { BAD,                   BAD,  BAD,                     GO(S_QUOTE, A_ATTR_END), BAD,                     BAD,                BAD, BAD,                     BAD,                          GO(S_ATTR, A_TOK),           BAD },
+  /* QUOTE   */ { BAD,                   BAD,  BAD,                     BAD,                     GO(S_VALUE, A_NONE),     BAD,                BAD, BAD,                     BAD,                          BAD,                         BAD },
+  /* VALUE   */ { BAD,                   BAD,  VAL,                     VAL,                     GO(S_AFTER, A_VAL_END),  GO(S_ESC, A_NONE),  BAD, BAD,                     VAL,                          VAL,                         VAL },
+  /* ESC     */ { BAD,                   BAD,  BAD,                     BAD,                     VAL,                     VAL,                VAL, VAL,                     BAD,                          GO(S_VALUE, A_EMIT_LETTER),  BAD },
+  /* AFTER   */ { BAD,                   BAD,  GO(S_ATTR, A_TOK_BEGIN), BAD,                     BAD,                     BAD,                BAD, GO(S_CLOSE, A_NONE),     BAD,                          BAD,                         BAD },
+  /* CLOSE   */ { GO(S_BOL, A_DELIVER),  BAD,  BAD,                     BAD,                     BAD,                     BAD,                BAD, BAD,                     BAD,                          BAD,                         BAD },
 };
-#define MAXATTR 3
-/* the message being read */
-static struct { uint32_t state, k, nattr, kind, malformed, pending, lost; struct tok t; struct txt cur; uint32_t attr[MAXATTR]; struct txt val[MAXATTR]; } R;
+/* the message being read: its name, and per attribute its name and decoded value */
+static uint32_t R_state, R_k, R_nattr, R_kind, R_attr0, R_attr1, R_attr2, R_malformed, R_pending, R_lost;
+static uint64_t R_ta, R_tb; static uint32_t R_tn;           /* the token being read */
+static struct txt R_cur, R_val0, R_val1, R_val2;
+static uint32_t word_of_token(void) { uint32_t r = W_NONE; for (uint32_t j = 0; j < NWORDS; j++) r = (R_ta == W_a[j] && R_tb == W_b[j] && R_tn == W_n[j]) ? j + 1 : r; return r; }
 static const char PREFIX[] = "##teamcity[";
 static void on_message(void);
 
@@ -174,83 +180,84 @@ static uint32_t class_of(uint8_t c) {
        : ((c >= 'a' && c <= 'z') || (c >= 'A' && c <= 'Z')) ? C_LETTER : C_OTHER;
 }
 static void reader_step(uint8_t c) {
-  uint32_t s = R.state < NSTATES ? R.state : S_TEXT, cls = class_of(c);
-  uint32_t e = (s == S_PREFIX && c == (uint8_t)PREFIX[R.k < 11 ? R.k : 0]) ? (R.k == 10 ? GO(S_MSGNAME, A_MSG_BEGIN) : GO(S_PREFIX, A_PREFIX_NEXT)) : TABLE[s][cls];
+  uint32_t s = R_state < NSTATES ? R_state : S_TEXT, cls = class_of(c);
+  uint32_t e = (s == S_PREFIX && c == (uint8_t)PREFIX[R_k < 11 ? R_k : 0]) ? (R_k == 10 ? GO(S_MSGNAME, A_MSG_BEGIN) : GO(S_PREFIX, A_PREFIX_NEXT)) : TABLE[s][cls];
   uint32_t act = e >> 4, ns = e & 15;
-  uint32_t w = word_of(&R.t);
+  uint32_t w = W_NONE;
   uint8_t d = c;
   /* side conditions of the actions */
-  if ((act == A_NAME_END || act == A_ATTR_END) && R.t.n == 0) act = A_BAD;                   /* empty name */
-  if ((act == A_ATTR_END || (act == A_TOK && s == S_ATTR)) && R.nattr >= MAXATTR) act = A_BAD; /* more attributes than any message of this vocabulary has */
+  if ((act == A_NAME_END || act == A_ATTR_END) && R_tn == 0) act = A_BAD;                      /* empty name */
+  if ((act == A_ATTR_END || (act == A_TOK && s == S_ATTR)) && R_nattr >= 3) act = A_BAD;        /* more attributes than any message of this vocabulary has */
   if (act == A_EMIT_LETTER) { if (c == 'n') d = '\n'; else if (c == 'r') d = '\r'; else act = A_BAD; }
-  if (act == A_BAD) { R.malformed = 1; ns = S_TEXT; }
+  if (act == A_BAD) { R_malformed = 1; ns = S_TEXT; }
+  if (cls == C_NL) ns = S_BOL;                        /* whatever happened on this line, the next one starts afresh */
   /* actions */
-  if (act == A_PREFIX_FIRST) R.k = 1;
-  if (act == A_PREFIX_NEXT || act == A_MSG_BEGIN) R.k++;
-  if (act == A_MSG_BEGIN) R.nattr = 0;
-  if (act == A_TOK) tok_add(&R.t, c);
-  if (act == A_NAME_END) R.kind = w;
-  if (act == A_ATTR_END) { if (R.nattr == 0) R.attr[0] = w; else if (R.nattr == 1) R.attr[1] = w; else R.attr[2] = w; txt_clear(&R.cur); }
-  if (act == A_MSG_BEGIN || act == A_NAME_END || act == A_TOK_BEGIN) { R.t.a = R.t.b = 0; R.t.n = 0; }
-  if (act == A_EMIT || act == A_EMIT_LETTER) txt_add(&R.cur, d);
-  if (act == A_VAL_END) { if (R.nattr == 0) R.val[0] = R.cur; else if (R.nattr == 1) R.val[1] = R.cur; else R.val[2] = R.cur; R.nattr++; }
-  if (act == A_DELIVER) { if (R.pending) R.lost = 1; R.pending = 1; }
-  R.state = ns;
+  if (act == A_PREFIX_FIRST) R_k = 1;
+  if (act == A_PREFIX_NEXT || act == A_MSG_BEGIN) R_k++;
+  if (act == A_MSG_BEGIN) R_nattr = 0;
+  if (act == A_TOK) { if (R_tn < 10) R_ta = tok_code(R_ta, c); else if (R_tn < 20) R_tb = tok_code(R_tb, c); if (R_tn < 21) R_tn++; }      /* 21 letters: longer than any word */
+  if (act == A_NAME_END || act == A_ATTR_END) w = word_of_token();
+  if (act == A_NAME_END) R_kind = w;
+  if (act == A_ATTR_END) { if (R_nattr == 0) R_attr0 = w; else if (R_nattr == 1) R_attr1 = w; else R_attr2 = w; R_cur.w[0] = R_cur.w[1] = R_cur.w[2] = R_cur.w[3] = 0; R_cur.n = 0; }
+  if (act == A_MSG_BEGIN || act == A_NAME_END || act == A_TOK_BEGIN) { R_ta = R_tb = 0; R_tn = 0; }
+  if (act == A_EMIT || act == A_EMIT_LETTER) { if (R_cur.n < TXT_CAP) { R_cur.w[R_cur.n >> 3] |= (uint64_t)d << ((R_cur.n & 7) * 8); R_cur.n++; } else R_cur.n = TXT_CAP + 1; }    /* = txt_add(&R_cur, d) */
+  if (act == A_VAL_END) { if (R_nattr == 0) R_val0 = R_cur; else if (R_nattr == 1) R_val1 = R_cur; else R_val2 = R_cur; R_nattr++; }
+  if (act == A_DELIVER) { if (R_pending) R_lost = 1; R_pending = 1; }
+  R_state = ns;
 }
 /* a complete message is handed to the checker at the end of the write that completed it */
-static void reader_flush(void) { if (R.pending) on_message(); R.pending = 0; }
-static void reader_finish(void) {
-  reader_flush();
-  ENV_ENGINE_ASSERT(!R.lost, "two messages completed inside one write (reader model too small)");
-  CHECK(!R.malformed, "every service message is well formed: no value ends early, no raw ' [ ] | or line break inside a value");
-  CHECK(R.state == S_BOL || R.state == S_TEXT, "the stream does not end inside a service message");
-}
+static void reader_flush(void) { if (R_pending) on_message(); R_pending = 0; }
 
 /* ---------------------------------------------------------------- checker: nesting state + decoded values against the originals */
-static struct { uint32_t suite_open, test_open, ti, suites_started, suites_finished, ignored_seen, failed_seen, bad_structure, bad_value, too_long; struct txt sname, tname; } C;
+static uint32_t C_suite_open, C_test_open, C_ti, C_suites_started, C_suites_finished, C_ignored_seen, C_failed_seen, C_bad_structure, C_bad_value, C_too_long;
+static struct txt C_sname, C_tname;
 static void on_message(void) {
-  uint32_t n = R.nattr;
-  int named = n >= 1 && R.attr[0] == A_NAME;
-  for (uint32_t i = 0; i < MAXATTR; i++) if (i < n && R.val[i].n > TXT_CAP) C.too_long = 1;
-  switch (R.kind) {
+  uint32_t n = R_nattr;
+  int named = n >= 1 && R_attr0 == A_NAME;
+  if ((n >= 1 && R_val0.n > TXT_CAP) || (n >= 2 && R_val1.n > TXT_CAP) || (n >= 3 && R_val2.n > TXT_CAP)) C_too_long = 1;
+  switch (R_kind) {
     case K_SUITE_START:
-      if (C.suite_open || C.test_open || !named || n != 1) C.bad_structure = 1;
-      C.suite_open = 1; C.suites_started++; C.sname = R.val[0];
+      if (C_suite_open || C_test_open || !named || n != 1) C_bad_structure = 1;
+      C_suite_open = 1; C_suites_started++; C_sname = R_val0;
       break;
     case K_SUITE_FINISH:
-      if (!C.suite_open || C.test_open || !named || n != 1 || !txt_eq(&R.val[0], &C.sname)) C.bad_structure = 1;
-      C.suite_open = 0; C.suites_finished++;
+      if (!C_suite_open || C_test_open || !named || n != 1 || !txt_eq(&R_val0, &C_sname)) C_bad_structure = 1;
+      C_suite_open = 0; C_suites_finished++;
       break;
     case K_TEST_START:
-      if (!C.suite_open || C.test_open || !named || n != 1) C.bad_structure = 1;
-      C.test_open = 1; C.ignored_seen = 0; C.failed_seen = 0; C.tname = R.val[0];
+      if (!C_suite_open || C_test_open || !named || n != 1) C_bad_structure = 1;
+      C_test_open = 1; C_ignored_seen = 0; C_failed_seen = 0; C_tname = R_val0;
       break;
     case K_TEST_IGNORED:
-      if (!C.test_open || !named || n != 1 || !txt_eq(&R.val[0], &C.tname)) C.bad_structure = 1;
-      C.ignored_seen++;
+      if (!C_test_open || !named || n != 1 || !txt_eq(&R_val0, &C_tname)) C_bad_structure = 1;
+      C_ignored_seen++;
       break;
     case K_TEST_FAILED:
-      if (!C.test_open || !named || n != 3 || R.attr[1] != A_MESSAGE || R.attr[2] != A_DETAILS || !txt_eq(&R.val[0], &C.tname)) C.bad_structure = 1;
-      C.failed_seen++;
-      for (uint32_t i = 0; i < MAXT; i++) if (i == C.ti && i < NT && n == 3) {
-        if (!txt_eq(&R.val[1], &T[i].location_t)) C.bad_value = 1;        /* where it failed */
-        if (!txt_eq(&R.val[2], &T[i].fmsg_t)) C.bad_value = 1;            /* the failure message */
+      if (!C_test_open || !named || n != 3 || R_attr1 != A_MESSAGE || R_attr2 != A_DETAILS || !txt_eq(&R_val0, &C_tname)) C_bad_structure = 1;
+      C_failed_seen++;
+      for (uint32_t i = 0; i < MAXT; i++) if (i == C_ti && i < NT && n == 3) {
+#ifndef NO_LOC
+        if (!txt_eq(&R_val1, &t_location_t[i])) C_bad_value = 1;          /* where it failed */
+#endif
+#ifndef NO_MSG
+        if (!txt_eq(&R_val2, &t_fmsg_t[i])) C_bad_value = 1;              /* the failure message */
+#endif
       }
       break;
     case K_TEST_FINISH:
-      if (!C.test_open || !named || n != 2 || R.attr[1] != A_DURATION || !txt_eq(&R.val[0], &C.tname)) C.bad_structure = 1;
-      C.test_open = 0;
-      if (C.ti >= NT) C.bad_structure = 1;                                                         /* more tests than the run has */
-      for (uint32_t i = 0; i < MAXT; i++) if (i == C.ti && i < NT) {
-        if (!txt_eq(&C.tname, &T[i].name_t) || !txt_eq(&C.sname, &T[i].group_t)) C.bad_value = 1;   /* names decode to the originals */
-        if (C.ignored_seen != T[i].ignored) C.bad_structure = 1;                                  /* flagged ignored iff ignored */
-        if (C.failed_seen != T[i].fails) C.bad_structure = 1;                                     /* one failure message iff it failed */
-        if (n == 2 && !(R.val[1].n == 1 && R.val[1].w[0] == '0')) C.bad_value = 1;                /* time model: the clock stands still */
+      if (!C_test_open || !named || n != 2 || R_attr1 != A_DURATION || !txt_eq(&R_val0, &C_tname)) C_bad_structure = 1;
+      C_test_open = 0;
+      if (C_ti >= NT) C_bad_structure = 1;                                                         /* more tests than the run has */
+      for (uint32_t i = 0; i < MAXT; i++) if (i == C_ti && i < NT) {
+        if (!txt_eq(&C_tname, &t_name_t[i]) || !txt_eq(&C_sname, &t_group_t[i])) C_bad_value = 1;   /* names decode to the originals */
+        if (C_ignored_seen != t_ignored[i]) C_bad_structure = 1;                                  /* flagged ignored iff ignored */
+        if (C_failed_seen != t_fails[i]) C_bad_structure = 1;                                     /* one failure message iff it failed */
+        if (n == 2 && !(R_val1.n == 1 && R_val1.w[0] == '0')) C_bad_value = 1;                    /* time model: the clock stands still */
       }
-      C.ti++;
+      C_ti++;
       break;
     default:
-      C.bad_structure = 1;
+      C_bad_structure = 1;
       break;
   }
 }
@@ -295,46 +302,47 @@ HARNESS(harness_escape_roundtrip) {
 static void set_up_run(const int n, const uint8_t* raw, const uint8_t* lines, const uint8_t* kinds) {
   NT = (uint32_t)n;
   for (int i = 0; i < n; i++) {
-    struct t_test* t = &T[i];
     const uint8_t* r = raw + i * 5 * SLEN;
-    FIELD(t->group, r, 0); FIELD(t->name, r, SLEN); FIELD(t->file, r, 2 * SLEN); FIELD(t->ffile, r, 3 * SLEN); FIELD(t->fmsg, r, 4 * SLEN);
-    t->line = lines[2 * i] & 63; t->fline = lines[2 * i + 1] & 63;
-    t->ignored = kinds[i] == 2; t->fails = kinds[i] == 1;                 /* 0 pass, 1 fail, 2 ignored */
-    txt_clear(&t->group_t); txt_cat(&t->group_t, t->group, SLEN);
-    txt_clear(&t->name_t); txt_cat(&t->name_t, t->name, SLEN);
-    txt_clear(&t->fmsg_t); txt_cat(&t->fmsg_t, t->fmsg, SLEN);
+    FIELD(t_group[i], r, 0); FIELD(t_name[i], r, SLEN); FIELD(t_file[i], r, 2 * SLEN); FIELD(t_ffile[i], r, 3 * SLEN); FIELD(t_fmsg[i], r, 4 * SLEN);
+    t_line[i] = lines[2 * i] & LINEMASK; t_fline[i] = lines[2 * i + 1] & LINEMASK;
+    t_ignored[i] = kinds[i] == 2; t_fails[i] = kinds[i] == 1;                 /* 0 pass, 1 fail, 2 ignored */
+    txt_clear(&t_group_t[i]); txt_cat(&t_group_t[i], t_group[i], SLEN);
+    txt_clear(&t_name_t[i]); txt_cat(&t_name_t[i], t_name[i], SLEN);
+    txt_clear(&t_fmsg_t[i]); txt_cat(&t_fmsg_t[i], t_fmsg[i], SLEN);
     /* the location text of a failure: "<file>:<line>", preceded by "TEST failed (<test file>:<test line>): " when the
      * failing check is not inside the test's own body (another file, or a line before the test) */
-    txt_clear(&t->location_t);
-    if (!t_eq(t->file, t->ffile) || t->fline < t->line) {
-      txt_cat(&t->location_t, (const uint8_t*)"TEST failed (", 13); txt_cat(&t->location_t, t->file, SLEN); txt_add(&t->location_t, ':');
-      txt_cat_dec(&t->location_t, t->line); txt_cat(&t->location_t, (const uint8_t*)"): ", 3);
+    struct txt* l = &t_location_t[i];
+    txt_clear(l);
+    if (!t_eq(t_file[i], t_ffile[i]) || t_fline[i] < t_line[i]) {
+      txt_cat(l, (const uint8_t*)"TEST failed (", 13); txt_cat(l, t_file[i], SLEN); txt_add(l, ':'); txt_cat_dec(l, t_line[i]); txt_cat(l, (const uint8_t*)"): ", 3);
     }
-    txt_cat(&t->location_t, t->ffile, SLEN); txt_add(&t->location_t, ':'); txt_cat_dec(&t->location_t, t->fline);
+    txt_cat(l, t_ffile[i], SLEN); txt_add(l, ':'); txt_cat_dec(l, t_fline[i]);
   }
 }
 static void drive_and_check(const int n) {
   uint32_t groups = 0;
   for (int i = 0; i < n; i++) {
-    struct t_test* t = &T[i];
-    h_set_test((uint32_t)i, t->ignored, t->group, t->name, t->file, t->line);
-    if (t->fails) h_set_failure((uint32_t)i, t->ffile, t->fline, t->fmsg);
-    if (i == 0 || !t_eq(T[i - 1].group, t->group)) groups++;       /* a group = maximal run of consecutive tests of one group name */
+    h_set_test((uint32_t)i, t_ignored[i], t_group[i], t_name[i], t_file[i], t_line[i]);
+    if (t_fails[i]) h_set_failure((uint32_t)i, t_ffile[i], t_fline[i], t_fmsg[i]);
+    if (i == 0 || !t_eq(t_group[i - 1], t_group[i])) groups++;       /* a group = maximal run of consecutive tests of one group name */
   }
-  to_reader = 1; R.state = S_BOL; words_init();
+  to_reader = 1; R_state = S_BOL; words_init();
   h_run((uint32_t)n);
+  reader_flush();
   OBSERVE(out_len);
   NATIVE_ONLY(OBSERVE(stream_hash);)
-  reader_finish();
-  ENV_ENGINE_ASSERT(!C.too_long || R.malformed, "a decoded value is longer than TXT_CAP (bound too small)");
-  CHECK(!C.bad_structure, "suite and test messages nest: start/finish pair up, ignored flagged iff ignored, a failure names the open test");
-  CHECK(!C.bad_value, "every name, location and message value decodes to the original text");
-  CHECK(!C.suite_open && !C.test_open, "every started suite and test is finished");
-  CHECK(C.ti == NT, "one testStarted/testFinished pair per test of the run");
-  CHECK(C.suites_started == groups && C.suites_finished == groups, "one testSuiteStarted/testSuiteFinished pair per test group");
+  ENV_ENGINE_ASSERT(!R_lost, "two messages completed inside one write (reader model too small)");
+  ENV_ENGINE_ASSERT(!C_too_long || R_malformed, "a decoded value is longer than TXT_CAP (bound too small)");
+  CHECK(!R_malformed, "every service message is well formed: no value ends early, no raw ' [ ] | or line break inside a value");
+  CHECK(R_state == S_BOL || R_state == S_TEXT, "the stream does not end inside a service message");
+  CHECK(!C_bad_structure, "suite and test messages nest: start/finish pair up, ignored flagged iff ignored, a failure names the open test");
+  CHECK(!C_bad_value, "every name, location and message value decodes to the original text");
+  CHECK(!C_suite_open && !C_test_open, "every started suite and test is finished");
+  CHECK(C_ti == NT, "one testStarted/testFinished pair per test of the run");
+  CHECK(C_suites_started == groups && C_suites_finished == groups, "one testSuiteStarted/testSuiteFinished pair per test group");
   WITNESS("end");
 }
-/* KINDS < 0: pass/fail/ignored symbolic per test; otherwise base-3 digits give the pattern */
+/* KINDS < 0: pass/fail/ignored symbolic per test; otherwise its base-3 digits give the pattern */
 static void body_stream(const int n, const int KINDS) {
   h_init();
   IN_ARR_U8(raw, MAXT * 5 * SLEN); IN_ARR_U8(lines, MAXT * 2); IN_ARR_U8(kinds, MAXT);
@@ -343,17 +351,22 @@ static void body_stream(const int n, const int KINDS) {
   set_up_run(n, raw, lines, kinds);
   for (int i = 0; i < n; i++) {
 #ifdef KF_C20_1   /* known finding: the test's file name inside "TEST failed (...)" is written unescaped */
-    if (T[i].fails && (!t_eq(T[i].file, T[i].ffile) || T[i].fline < T[i].line)) ASSUME(!t_has_meta(T[i].file));
+    if (t_fails[i] && (!t_eq(t_file[i], t_ffile[i]) || t_fline[i] < t_line[i])) ASSUME(!t_has_meta(t_file[i]));
 #endif
 #ifdef KF_C20_2   /* known finding: a group with an empty name gets a suite start but no finish */
-    ASSUME(T[i].group[0] != 0);
+    ASSUME(t_group[i][0] != 0);
 #endif
   }
   drive_and_check(n);
 }
-HARNESS(harness_stream_1) { body_stream(1, -1); }
-HARNESS(harness_stream_2) { body_stream(2, -1); }
-HARNESS(harness_stream_3) { body_stream(3, -1); }
+/* one obligation per pass(0)/fail(1)/ignored(2) pattern: first test = last digit */
+HARNESS(harness_stream_1_0) { body_stream(1, 0); }
+HARNESS(harness_stream_1_1) { body_stream(1, 1); }
+HARNESS(harness_stream_1_2) { body_stream(1, 2); }
+#define S2(a, b) HARNESS(harness_stream_2_##a##b) { body_stream(2, a + 3 * b); }
+S2(0, 0) S2(0, 1) S2(0, 2) S2(1, 0) S2(1, 1) S2(1, 2) S2(2, 0) S2(2, 1) S2(2, 2)
+HARNESS(harness_stream_3_000) { body_stream(3, 0); }
+HARNESS(harness_stream_3_120) { body_stream(3, 1 + 3 * 2); }
 
 /* demonstrations of the two findings (not part of spec.py: they FAIL on the unchanged tree) */
 HARNESS(finding_testfile_unescaped) {     /* a check failing in another file than the test's, whose file is named "a'" */
